@@ -420,10 +420,14 @@ class NFANode(object):
 
         Empty transitions are listed under the symbol ``None`` and are always
         bidirectional.
+    empty_successors : set([:py:class:`NFANode`, ...])
+        The nodes reachable from this node by a single empty transition, in
+        the direction in which the transition was added.
     """
 
     def __init__(self):
         self.transitions = defaultdict(set)
+        self.empty_successors = set()
 
     def add_transition(self, dest_node, symbol=None):
         """
@@ -433,16 +437,19 @@ class NFANode(object):
         the two nodes will be added.
         """
         if symbol is None:
-            # Empty transitions should be bidirectional
+            # Empty transitions are recorded bidirectionally in 'transitions'
+            # but may only be *followed* in the direction they were added
+            # (otherwise e.g. 'a? b' would match 'a a b').
             self.transitions[symbol].add(dest_node)
             dest_node.transitions[symbol].add(self)
+            self.empty_successors.add(dest_node)
         else:
             self.transitions[symbol].add(dest_node)
 
     def equivalent_nodes(self):
         """
-        Iterate over the set of :py:class:`NFANode` nodes connected to this one
-        by only empty transitions (includes this node).
+        Iterate over the set of :py:class:`NFANode` nodes reachable from this
+        one by following only empty transitions (includes this node).
         """
         visited = set([self])
         to_visit = [self]
@@ -450,7 +457,7 @@ class NFANode(object):
             node = to_visit.pop()
             yield node
 
-            for other in node.transitions.get(None, []):
+            for other in node.empty_successors:
                 if other not in visited:
                     to_visit.append(other)
                     visited.add(other)
